@@ -9,21 +9,30 @@ LEVEL_TEXT = (
     "running the grammar that a translator regenerates from crates/tx3-lang/src/tx3.pest on every run, and (b) the "
     "literal builders of parsing.rs: the engine is a total function and every successful result is a well-placed pair "
     "tree, for every grammar, input and fuel; numerals, UTxO references and booleans are read or rejected with an error "
-    "for every text, a numeral exactly when it denotes a 64-bit value. Per generated source text the real pest parser "
+    "for every text, a numeral exactly when it denotes a 64-bit value; (c) termination: the grammar regenerated from "
+    "tx3.pest passes a well-formedness check evaluated by the kernel on every run (no rule reaches itself before "
+    "consuming input, no repetition of something that matches the empty string; certificate = nullability and a rank "
+    "per rule, recomputed), and for every grammar passing it the budget A*|text| + B*R + 2 + reserve is enough for "
+    "every text and start rule - the potential A*|rest| + B*rank + 2*size strictly decreases along every call of "
+    "eval / starLoop / skip - so the engine answers pairs or rejected and never out-of-fuel (fuel_enough, "
+    "parseF_total, tx3_grammar_well_formed, C12_never_out_of_fuel, C12_engine_total); the driver runs the engine "
+    "with exactly that budget. Per generated source text the real pest parser "
     "(pair tree through the cfg(tx3_verif) hook) is compared with the engine pair for pair and on acceptance, the real "
     "literal builders with the model's values, errors and spans, and parse_string / analyze / lower / Workspace::lower "
     "are run under a panic hook and a 20 s watchdog on a thread with the main thread's stack size."
 )
 LEVEL_NOTE = (
     "Partial: the tree plumbing of parsing.rs / cardano.rs (which child comes where) and the analyzer are not modelled; "
-    "their totality is explored per case, not proved. The engine's fuel is a recursion-depth bound; running out of it "
-    "is reported as a disagreement, it is not proved impossible. Stack exhaustion beyond nesting depth 64 is outside "
+    "their totality is explored per case, not proved. That the model engine terminates on every input is a theorem; "
+    "that pest's generated parser does is tied to it by the pair-for-pair comparison per case. Stack exhaustion beyond nesting depth 64 is outside "
     "the property."
 )
 PROP = "C12"
-TARGETS = ["Tx3Proofs.C12"]
+TARGETS = ["Tx3Proofs.C12", "Tx3Proofs.C12Fuel"]
 THEOREMS = ["Tx3.Peg.engine_inv", "Tx3.Front.C12_engine_outcome", "Tx3.Front.C12_number_total",
-            "Tx3.Front.C12_number_range", "Tx3.Front.C12_utxo_ref_total", "Tx3.Front.C12_bool_on_rule"]
+            "Tx3.Front.C12_number_range", "Tx3.Front.C12_utxo_ref_total", "Tx3.Front.C12_bool_on_rule",
+            "Tx3.Peg.headOK_mono", "Tx3.Peg.fuel_enough", "Tx3.Peg.skipOK_of_check", "Tx3.Peg.parseF_total",
+            "Tx3.Front.tx3_grammar_well_formed", "Tx3.Front.C12_never_out_of_fuel", "Tx3.Front.C12_engine_total"]
 RULE = (
     "cases = reproduced past failures; definition graphs (1-4 types, 0-3 aliases, 0-4 locals and an input referring "
     "to each other and to themselves at random: chains, cycles, undefined names, built-in aliases, several references "
